@@ -643,7 +643,7 @@ def exc_kind(e):
             return "brokenExt"
         if "max()" in s:
             return "noIterations"
-        if "duplicate" in s:
+        if "duplicate" in s or "could not convert string to float" in s:
             return "unmodelled"
         if "shape" in s or "broadcast" in s:
             return "shapeError"
@@ -893,6 +893,8 @@ def compare_phi(n, mviews, t, k, tags):
             tags.append("k-skip:unmodelled")
         elif cerr != metc[1]:
             k.append(f"table {n} phi.etc_data: model {metc} code {cerr}")
+    elif cerr == "unmodelled":
+        tags.append("k-skip:non-numeric-etc-cell")
     elif cerr is not None:
         k.append(f"table {n} phi.etc_data: model data, code raises {cerr}")
     else:
